@@ -18,7 +18,7 @@ import time
 VERIF = os.path.dirname(os.path.dirname(os.path.abspath(__file__)))
 REPO = os.environ.get("VERIF_REPO", "/repo")
 COQDIR = os.path.join(VERIF, "coq")
-BUILD = os.path.join(VERIF, "_build", "rel")
+BUILD = os.environ.get("VERIF_BUILD", os.path.join(VERIF, "_build", "rel"))
 WORK = os.path.join(VERIF, "_work")
 MINICONDA = "/root/miniconda"
 NCPU = os.cpu_count() or 4
